@@ -95,6 +95,10 @@ G0 == [role |-> "", ver |-> "", idw |-> 16,
        inUn |-> {},                       \* inbound QoS>0 ids not yet answered on this connection (C12e)
        peerRM |-> 0, ownRM |-> 0, peerTAM |-> 0, ownTAM |-> 0, peerMPS |-> NoLimit, ownMPS |-> NoLimit,
        rx |-> {}, aliasIn |-> {},         \* [a, t]: the receiver's table of what we sent / of what we received
+       aliasHist |-> {},                  \* every inbound binding [a, t] made on this connection - no clause reads it; it keeps
+                                          \* "bound to t2, then re-bound to t1" apart from "bound to t1" in the model's state, so
+                                          \* that both histories are continued (an implementation that misses the re-binding
+                                          \* differs only on the first one)
        ka |-> 0, ska |-> -1, user |-> -1, respTimeout |-> 0,
        echo |-> <<>>,                     \* shape of the last send if it was refused (error only, nothing sent or delivered): keeps the
                                           \* state after a refused call distinct for ONE step, so that the transition
@@ -244,6 +248,8 @@ GhostStep(g, prev, r) ==
                 ELSE IF ConnackSentOk(r) /\ p.mps >= 0 THEN p.mps ELSE @,
      !.rx = RxAfter(rx0, out, 1),
      !.aliasIn = ai1,
+     !.aliasHist = IF isConn \/ op \in {"closed", "crash"} THEN {}
+                   ELSE IF IsRecv(r, {"publish"}) /\ p.topic # "" /\ p.alias # 0 /\ ~HasErr(out) THEN @ \cup { << p.alias, p.topic, p.qos >> } ELSE @,
      !.ka = IF isConn THEN cp.ka ELSE @,
      !.ska = IF isConn THEN -1 ELSE IF ckOk /\ ck.ska >= 0 THEN ck.ska ELSE IF ConnackSentOk(r) /\ p.ska >= 0 THEN p.ska ELSE @,
      !.user = IF op = "set_interval" THEN r.call.val ELSE @,
@@ -388,6 +394,11 @@ ViolC08(g, prev, r, g2) ==
   \cup (IF Op(r) = "send" /\ Opens(p) /\ ~r.panic /\ HasErr(r.out) /\ SendsK(r.out, {p.kind}) = <<>>
            /\ p.pid \in before /\ p.pid \notin relS
         THEN {"C08c-refusal-without-release"} ELSE {})
+  \* "never leaked": a send that reports nothing, transmits nothing and stores nothing must not keep the identifier it
+  \* carried - nothing will ever complete (or release) that exchange
+  \cup (IF Op(r) = "send" /\ Opens(p) /\ ~r.panic /\ ~HasErr(r.out) /\ SendsK(r.out, {p.kind}) = <<>> /\ p.pid \in before
+           /\ ~(\E i \in DOMAIN r.obs.stored : r.obs.stored[i].pid = p.pid) /\ p.pid \notin relS /\ p.pid \in SeqToSet(r.dig.used)
+        THEN {"C08c-silent-send-keeps-id"} ELSE {})
   \cup (IF Op(r) \in {"closed", "crash"} /\ ~r.panic /\ ~((g.sub \cup g.unsub) \subseteq relS) THEN {"C08c-close-sub-ids"} ELSE {})
   \cup (IF Op(r) \in {"closed", "crash"} /\ ~r.panic /\ ~g.persistent /\ ~((pubPending \cap g.used) \subseteq relS) THEN {"C08c-close-publish-ids"} ELSE {})
   \cup (IF ~r.panic /\ Op(r) # "new" /\ SeqToSet(r.dig.used) # { x \in g2.used : x <= 40 } THEN {"C08d-in-use-set"} ELSE {})
@@ -494,7 +505,10 @@ ViolC15(g, prev, r, g2) ==
            \E i \in DOMAIN r.out : r.out[i].ev = "timer_reset" /\ r.out[i].k = "pingreq_send" /\ r.out[i].ms # iv
         THEN {"C15d-pingreq-interval"} ELSE {})
   \cup (IF ~r.panic /\ ~g2.client /\ g2.conn \in {"connecting", "connected"} /\ Op(r) = "recv"
-           /\ (\E i \in DOMAIN r.out : r.out[i].ev = "recv" /\ r.out[i].pkt.kind \notin {"pingresp", "disconnect"})
+           /\ ( (\E i \in DOMAIN r.out : r.out[i].ev = "recv" /\ r.out[i].pkt.kind \notin {"pingresp", "disconnect"})
+                \* a QoS 2 retransmission is accepted too (answered, not notified again)
+                \/ (IsRecv(r, {"publish"}) /\ r.call.flag /\ p.qos = 2 /\ p.pid \in g.handled /\ ~HasErr(r.out)
+                    /\ SendsK(r.out, {"pubrec"}) # <<>>) )
            /\ rt > 0 /\ ~HasReset(r.out, "pingreq_recv", rt)
         THEN {"C15e-receive-timer-not-rearmed"} ELSE {})
   \cup (IF ~r.panic /\ ~g2.client /\ g2.conn \in {"connecting", "connected"} /\
@@ -617,6 +631,12 @@ ViolC16(g, prev, r, g2) ==
   LET resF == SendsK(r.outF, {"publish", "pubrel"})
       res  == SendsK(r.out, {"publish", "pubrel"})
   IN
+  \* "if at ANY point the application exports ...": every step is a possible export point, so what would be exported
+  \* must at every step be exactly the accepted-and-not-completed messages in the order they were accepted
+  (IF g2.persistent /\ ~HandshakeDone(r) /\ Op(r) \notin {"restore", "crash", "new"} /\ ~r.panic
+      /\ StoredAbs(r.obs.stored) # ExpectedStore(g, prev, r, g2)
+   THEN {"C16-export-content"} ELSE {})
+  \cup
   IF r.shadow # "restored" \/ r.panic THEN (IF r.shadow = "restored" /\ r.panic THEN {"C16-panic"} ELSE {})
   ELSE
   (IF r.panicF THEN {"C16-restored-object-panics"} ELSE {})
